@@ -124,10 +124,28 @@ func runC03(c *Ctx) {
 			c.check(lo == hdrEnd, "C03.frame-agreement", "writer payload offset", cs.Pos(), fmt.Sprintf("payload copied at [%d:]", lo), fmt.Sprintf("payload copied at offset %d but the header ends at %d", lo, hdrEnd))
 		}
 	}
+	// the same frame assembled with append: make(len header, cap header+n); …; frame = append(frame, payload...)
+	var appended *ssa.Call
+	if !copied {
+		for _, cs := range c.calls(write, byCallee("builtin:append")) {
+			_, aa := callArgs(cs.Common())
+			if len(aa) == 2 && aa[0] == wframe && aa[1] == ssa.Value(write.Params[1]) {
+				if ms, isMs := wframe.(*ssa.MakeSlice); isMs {
+					if k, isK := constInt(ms.Len); isK {
+						copied = true
+						appended = cs.Instr.(*ssa.Call)
+						c.check(k == hdrEnd, "C03.frame-agreement", "writer payload offset", cs.Pos(), fmt.Sprintf("payload appended at [%d:]", k), fmt.Sprintf("payload appended at offset %d but the header ends at %d", k, hdrEnd))
+					}
+				}
+			}
+		}
+	}
 	if !copied {
 		c.violate("C03.frame-agreement", "writer payload offset", write.Pos(), "payload parameter is not copied behind the header of the frame")
 	}
-	if ms, ok := wframe.(*ssa.MakeSlice); ok {
+	if appended != nil {
+		c.ok("C03.frame-agreement", "writer frame length", appended.Pos(), "frame = header + len(payload) (append)")
+	} else if ms, ok := wframe.(*ssa.MakeSlice); ok {
 		l := linOf(ms.Len)
 		c.check(l.K == hdrEnd && len(l.T) == 1 && l.T["len($0)"] == 1, "C03.frame-agreement", "writer frame length", ms.Pos(), "frame = header + len(payload)", "frame length is "+l.String())
 	} else {
@@ -137,7 +155,7 @@ func runC03(c *Ctx) {
 	wr := c.calls(write, byCallee("(*bufio.Writer).Write"))
 	if len(wr) == 1 {
 		_, args := callArgs(wr[0].Common())
-		c.check(args[0] == wframe, "C03.frame-agreement", "writer emits the frame", wr[0].Pos(), "buf.Write(frame)", "buf.Write argument is not the assembled frame: "+render(args[0]))
+		c.check(args[0] == wframe || (appended != nil && args[0] == ssa.Value(appended)), "C03.frame-agreement", "writer emits the frame", wr[0].Pos(), "buf.Write(frame)", "buf.Write argument is not the assembled frame: "+render(args[0]))
 	} else {
 		c.undecided("C03.frame-agreement", "writer emits the frame", write.Pos(), fmt.Sprintf("expected exactly one bufio.Writer.Write, found %d", len(wr)))
 	}
@@ -369,7 +387,23 @@ func runC03(c *Ctx) {
 				c.check(render(tf.Call.Args[0]) == "$r.id" && render(rf.Call.Args[0]) == "$r.id", "C03.repair-targets", "segment id", tr[0].Pos(), "both use the reader's id", "file id differs from the reader's id")
 				// Truncate index: phi over headIdx, +1 per segment walked; length: phi over validOffset minus sizes walked
 				tphi, isPhi := tidx.(*ssa.Phi)
-				c.check(isPhi && phiIsCounterFrom(tphi, func(v ssa.Value) bool { return render(v) == "$r.wi.headIdx" }), "C03.repair-targets", "Truncate segment index", tr[0].Pos(), "headIdx + number of whole segments skipped", "Truncate index is "+render(tidx))
+				okTidx := isPhi && phiIsCounterFrom(tphi, func(v ssa.Value) bool { return render(v) == "$r.wi.headIdx" })
+				if !okTidx {
+					// the same index derived from the loop position: headIdx + k for the k-th size of the walk
+					if bo, ok := tidx.(*ssa.BinOp); ok && bo.Op == token.ADD {
+						if li, lb, isLoop := indexLoop(dominatingHeader(tr[0].Instr.Block())); isLoop && strings.HasSuffix(render(lb), "len($r.wi.fileSizes)") {
+							x, y := bo.X, bo.Y
+							if render(y) == "$r.wi.headIdx" {
+								x, y = y, x
+							}
+							if cv, isCv := y.(*ssa.Convert); isCv {
+								y = cv.X
+							}
+							okTidx = render(x) == "$r.wi.headIdx" && y == li
+						}
+					}
+				}
+				c.check(okTidx, "C03.repair-targets", "Truncate segment index", tr[0].Pos(), "headIdx + number of whole segments skipped", "Truncate index is "+render(tidx))
 				lphi, isPhi2 := targs[1].(*ssa.Phi)
 				okLeft := false
 				if isPhi2 {
